@@ -3,10 +3,9 @@ open BsVerif.MemIO
 #print axioms C15_read_spec
 #print axioms C15_read_exact
 #print axioms C15_read_success_iff
-#print axioms C15_read_total_partial
-#print axioms C15_read_total_words
+#print axioms C15_read_total
+#print axioms C15_read_total_long
 #print axioms C15_read_witness
-#print axioms C15_read_total_counterexample
 #print axioms C15_store_spec
 #print axioms C15_write_exact
 #print axioms C15_write_no_panic
@@ -18,7 +17,9 @@ open BsVerif.MemIO
 #print axioms C15_reg_roundtrip
 #print axioms C15_reg_write_visible
 #print axioms C15_disasm_masks_patches
-#print axioms C15_disasm_total_partial
-#print axioms C15_disasm_total_counterexample
+#print axioms C15_disasm_total
+#print axioms C15_disasm_witness
 #print axioms C15_setvar_int_roundtrip
-#print axioms C15_setvar_range_counterexample
+#print axioms C15_setvar_range
+#print axioms C15_setvar_accepted_exact
+#print axioms C15_setvar_witness
